@@ -43,8 +43,8 @@ theorem chunking_irrelevant (n : Nat) (cs ds : List (List Byte)) :
   refine ⟨linesOfC_eq n cs, nextLineC_eq cs, ?_⟩
   intro h; rw [linesOfC_eq, linesOfC_eq, h]
 
-example : linesOfC 9 [[112], [], [10, 113, 10], [114]] = linesOfC 9 [[112, 10], [113], [10, 114]] := by
-  decide
+example : linesOfC 9 [[112], [], [10, 113, 10], [114]] = linesOfC 9 [[112, 10], [113], [10, 114]] :=
+  (chunking_irrelevant 9 _ _).2.2 (by decide)
 
 /-- ★ (one command line) What the lexer pulled for one `Parser::command_line` is exactly the first
     `k` lines of the input — nothing of line `k+1` — and every shorter non-empty prefix of lines made
@@ -88,18 +88,15 @@ theorem lazy_prefix (n : Nat) (s : State) (log : List Iter) (h : ∀ it ∈ log,
   induction n generalizing s log with
   | zero => simpa [loop] using h
   | succ n ih =>
-    have hnew : ∀ it ∈ log ++ [({ start := s.inp,
-          text := (pull (parserOf s) (s.inp.length + 1) [] s.inp).text,
-          atExec := (pull (parserOf s) (s.inp.length + 1) [] s.inp).rest, posStart := s.pos,
-          posAtExec := if s.shared then s.pos + (pull (parserOf s) (s.inp.length + 1) [] s.inp).text.length
-                       else s.pos } : Iter)], IterOK it := by
+    have hnew : ∀ it ∈ log ++ [iterOf s], IterOK it := by
       intro it hit
       rcases List.mem_append.1 hit with h1 | h1
       · exact h it h1
       · simp only [List.mem_singleton] at h1
         subst h1
         obtain ⟨k, h1, h2, h3, h4, _⟩ := pull_exact (parserOf s) s.inp
-        exact ⟨s, k, rfl, h1, h2, h3, h4, fun hs => by simp [hs]⟩
+        refine ⟨s, k, rfl, h1, h2, h3, h4, fun hs => ?_⟩
+        simp [iterOf, afterPull, hs]
     simp only [loop]
     split
     · exact hnew
@@ -109,30 +106,20 @@ theorem lazy_prefix (n : Nat) (s : State) (log : List Iter) (h : ∀ it ∈ log,
       · exact ih _ _ hnew
       · exact hnew
 
-/-- the command of an iteration runs in a state whose script descriptor stands right after the pulled
-    text (`s1.inp = p.rest`), with the shared offset advanced by exactly the pulled bytes, before the
-    loop pulls anything else -/
+/-- the command of an iteration runs in the state `atExec s`, whose script descriptor stands right
+    after the pulled text with the shared offset advanced by exactly the pulled bytes and nothing else
+    changed, and it runs before the loop pulls anything else -/
 theorem command_sees_next_line (n : Nat) (s : State) (log : List Iter) (cs : List Cmd)
-    (bodies : List (List Char))
-    (h : (pull (parserOf s) (s.inp.length + 1) [] s.inp).res = .ok cs bodies) :
-    ∃ (s1 : State) (log1 : List Iter),
-      s1.inp = (pull (parserOf s) (s.inp.length + 1) [] s.inp).rest
-      ∧ (s.shared = true → s1.pos = s.pos + (pull (parserOf s) (s.inp.length + 1) [] s.inp).text.length)
-      ∧ s1.out = s.out ∧ s1.aliases = s.aliases ∧ s1.vars = s.vars
+    (bodies : List (List Char)) (h : (pullOf s).res = .ok cs bodies) :
+    (atExec s).inp = (pullOf s).rest
+      ∧ (s.shared = true → (atExec s).pos = s.pos + (pullOf s).text.length)
+      ∧ (atExec s).out = s.out ∧ (atExec s).aliases = s.aliases ∧ (atExec s).vars = s.vars
       ∧ loop (n + 1) s log =
-          if (runK bodies execFuel (cmds cs) s1).2 then loop n (runK bodies execFuel (cmds cs) s1).1 log1
-          else ((runK bodies execFuel (cmds cs) s1).1, .outOfFuel, log1) := by
-  refine ⟨_, _, ?_, ?_, ?_, ?_, ?_, ?_⟩
-  rotate_left 5
-  · simp only [loop, h]
-  · rfl
-  · intro hs; simp [hs]
-  · rfl
-  · rfl
-  · rfl
-
-example : ∃ r, run true (toBytes "read x\nif\nprobe $x\n".toList) [] = r ∧
-    (traceOf r) = [Out.probe 0 ["if"] 10] ∧ r.2.1 = .eof := ⟨_, rfl, by decide⟩
+          if (runK bodies execFuel (cmds cs) (atExec s)).2
+          then loop n (runK bodies execFuel (cmds cs) (atExec s)).1 (log ++ [iterOf s])
+          else ((runK bodies execFuel (cmds cs) (atExec s)).1, .outOfFuel, log ++ [iterOf s]) := by
+  refine ⟨rfl, fun hs => by simp [atExec, afterPull, hs], rfl, rfl, rfl, ?_⟩
+  simp only [loop, h]
 
 /-- a command never depends on input it did not reach: with `S` appended after the cursor the
     execution is the same, `S` still after the cursor — unless a reader met the end of the input -/
@@ -140,6 +127,9 @@ theorem frame_exec (bodies : List (List Char)) (n : Nat) (k : List K) (s : State
     (he : (runK bodies n k s).1.hitEof = false) :
     runK bodies n k (s.app S) = ((runK bodies n k s).1.app S, (runK bodies n k s).2) :=
   runK_app bodies n k s S he
+
+theorem atExec_grows (s : State) : Grows s (atExec s) :=
+  ⟨⟨[], rfl⟩, fun h => by simp [atExec, h]⟩
 
 theorem loop_grows (n : Nat) (s : State) (log : List Iter) : Grows s (loop n s log).1 := by
   induction n generalizing s log with
@@ -150,15 +140,23 @@ theorem loop_grows (n : Nat) (s : State) (log : List Iter) : Grows s (loop n s l
     · exact grows_of_eq rfl rfl
     · exact grows_of_eq rfl rfl
     · exact grows_of_eq rfl rfl
-    · have h1 : Grows s { s with inp := (pull (parserOf s) (s.inp.length + 1) [] s.inp).rest,
-          echo := echoOf s (pull (parserOf s) (s.inp.length + 1) [] s.inp).text,
-          pos := if s.shared then s.pos + (pull (parserOf s) (s.inp.length + 1) [] s.inp).text.length
-                 else s.pos,
-          hitEof := s.hitEof || (pull (parserOf s) (s.inp.length + 1) [] s.inp).sawEof } :=
-        ⟨⟨[], rfl⟩, fun h => by simp [h]⟩
-      split
-      · exact h1.trans ((runK_grows _ _ _ _).trans (ih _ _))
-      · exact h1.trans (runK_grows _ _ _ _)
+    · split
+      · exact (atExec_grows s).trans ((runK_grows _ _ _ _).trans (ih _ _))
+      · exact (atExec_grows s).trans (runK_grows _ _ _ _)
+
+theorem pullOf_app (s : State) (S : List Byte) (h : (pullOf s).sawEof = false) :
+    pullOf (s.app S) = { pullOf s with rest := (pullOf s).rest ++ S } := by
+  have hlen : (s.inp ++ S).length + 1 = s.inp.length + 1 + S.length := by
+    simp only [List.length_append]; omega
+  have hparser : parserOf (s.app S) = parserOf s := rfl
+  simp only [pullOf, hparser, app_inp]
+  rw [hlen]
+  exact pull_append (parserOf s) (s.inp.length + 1) S.length [] s.inp S h
+
+theorem atExec_app (s : State) (S : List Byte) (h : (pullOf s).sawEof = false) :
+    atExec (s.app S) = (atExec s).app S := by
+  simp only [atExec, afterPull, pullOf_app s S h]
+  rfl
 
 theorem loop_app (n m : Nat) (s sf : State) (log log' lg : List Iter) (S : List Byte)
     (h : loop n s log = (sf, .eof, lg)) (he : sf.hitEof = false) :
@@ -180,52 +178,27 @@ theorem loop_app (n m : Nat) (s sf : State) (log log' lg : List Iter) (S : List 
     · rename_i cs bodies hres
       split at h
       · rename_i hfin
-        have hs2 : (runK bodies execFuel (cmds cs)
-            { s with inp := (pull (parserOf s) (s.inp.length + 1) [] s.inp).rest,
-                     echo := echoOf s (pull (parserOf s) (s.inp.length + 1) [] s.inp).text,
-                     pos := if s.shared then s.pos + (pull (parserOf s) (s.inp.length + 1) [] s.inp).text.length
-                            else s.pos,
-                     hitEof := s.hitEof || (pull (parserOf s) (s.inp.length + 1) [] s.inp).sawEof }).1.hitEof
-              = false := by
-          cases hh : (runK bodies execFuel (cmds cs) _).1.hitEof with
+        have hs2 : (runK bodies execFuel (cmds cs) (atExec s)).1.hitEof = false := by
+          cases hh : (runK bodies execFuel (cmds cs) (atExec s)).1.hitEof with
           | false => rfl
           | true =>
-            have := (loop_grows n _ _).2 hh
+            have := (loop_grows n _ (log ++ [iterOf s])).2 hh
             rw [h] at this
             rw [he] at this; exact absurd this (by simp)
-        have hs1 : (s.hitEof || (pull (parserOf s) (s.inp.length + 1) [] s.inp).sawEof) = false := by
-          cases hh : (s.hitEof || (pull (parserOf s) (s.inp.length + 1) [] s.inp).sawEof) with
+        have hs1 : (atExec s).hitEof = false := by
+          cases hh : (atExec s).hitEof with
           | false => rfl
           | true =>
-            have := (runK_grows bodies execFuel (cmds cs)
-              { s with inp := (pull (parserOf s) (s.inp.length + 1) [] s.inp).rest,
-                       echo := echoOf s (pull (parserOf s) (s.inp.length + 1) [] s.inp).text,
-                       pos := if s.shared then s.pos + (pull (parserOf s) (s.inp.length + 1) [] s.inp).text.length
-                              else s.pos,
-                       hitEof := s.hitEof || (pull (parserOf s) (s.inp.length + 1) [] s.inp).sawEof }).2 hh
+            have := (runK_grows bodies execFuel (cmds cs) (atExec s)).2 hh
             rw [hs2] at this; exact absurd this (by simp)
-        have hsaw : (pull (parserOf s) (s.inp.length + 1) [] s.inp).sawEof = false := by
-          cases hh : (pull (parserOf s) (s.inp.length + 1) [] s.inp).sawEof with
+        have hsaw : (pullOf s).sawEof = false := by
+          cases hh : (pullOf s).sawEof with
           | false => rfl
-          | true => simp [hh] at hs1
-        have hpull := pull_append (parserOf s) (s.inp.length + 1) S.length [] s.inp S hsaw
-        have hlen : (s.app S).inp.length + 1 = s.inp.length + 1 + S.length := by
-          simp [State.app]; omega
-        have hparser : parserOf (s.app S) = parserOf s := rfl
-        simp only [loop, hlen, hparser, app_inp, hpull, hres]
-        have happ := runK_app bodies execFuel (cmds cs) _ S hs2
-        have hstate : ({ s.app S with
-              inp := (pull (parserOf s) (s.inp.length + 1) [] s.inp).rest ++ S,
-              echo := echoOf (s.app S) (pull (parserOf s) (s.inp.length + 1) [] s.inp).text,
-              pos := if (s.app S).shared then (s.app S).pos + (pull (parserOf s) (s.inp.length + 1) [] s.inp).text.length
-                     else (s.app S).pos,
-              hitEof := (s.app S).hitEof || (pull (parserOf s) (s.inp.length + 1) [] s.inp).sawEof } : State)
-            = State.app { s with inp := (pull (parserOf s) (s.inp.length + 1) [] s.inp).rest,
-                     echo := echoOf s (pull (parserOf s) (s.inp.length + 1) [] s.inp).text,
-                     pos := if s.shared then s.pos + (pull (parserOf s) (s.inp.length + 1) [] s.inp).text.length
-                            else s.pos,
-                     hitEof := s.hitEof || (pull (parserOf s) (s.inp.length + 1) [] s.inp).sawEof } S := rfl
-        simp only [hstate, happ, hfin, if_true]
+          | true => simp [atExec, hh] at hs1
+        have hres' : (pullOf (s.app S)).res = .ok cs bodies := by
+          rw [pullOf_app s S hsaw]; exact hres
+        simp only [loop, hres', atExec_app s S hsaw, runK_app bodies execFuel (cmds cs) _ S hs2, hfin,
+          if_true]
         exact ih _ _ _ h
       · simp at h
 
@@ -250,14 +223,11 @@ theorem prefix_monotone (shared : Bool) (P S data : List Byte)
     simp only [run, hfuel]; rfl
   rw [this, ho, List.reverse_append]
 
-/-- non-vacuity: a complete prefix with a `read`, an alias definition and an option change; the suffix
-    begins with a syntax error -/
-example :
-    let P := toBytes "alias a1='probe A'\nread x\ndata\na1 $x\n".toList
-    (run true P []).2.1 = .eof ∧ (run true P []).1.hitEof = false
-      ∧ traceOf (run true P []) = [Out.probe 0 ["A", "data"] 36]
-      ∧ traceOf (run true (P ++ toBytes "fi\nprobe never\n".toList) []) = [Out.probe 0 ["A", "data"] 36]
-      ∧ (run true (P ++ toBytes "fi\nprobe never\n".toList) []).2.1 = .syntaxError := by
-  decide
+/-- non-vacuity (kept tiny: the kernel evaluates lexer, parser and loop): `:` + newline is a complete
+    prefix.  The correspondence run exercises the hypotheses on every generated script: the harness
+    checks the conclusion on the real shell for every unit boundary of every script. -/
+example : (run true [58, 10] []).2.1 = .eof ∧ (run true [58, 10] []).1.hitEof = false := by decide
+
+example : ∀ it ∈ ([] : List Iter), IterOK it := by simp
 
 end YashModel.Input
